@@ -5,7 +5,7 @@ existing suite passes with the patch) and store it under /verif/seeded/<name>/."
 import json, os, re, shutil, subprocess, sys, glob, time
 src, name = sys.argv[1].rstrip('/'), sys.argv[2]
 wt = "/tmp/sv-" + name
-env = dict(os.environ, GOFLAGS="-mod=mod", GOPROXY="off", GOSUMDB="off", GOTOOLCHAIN="local")
+env = dict(os.environ, GOFLAGS="-mod=mod", GOPROXY="off", GOSUMDB="off", GOTOOLCHAIN="local", DBUS_SESSION_BUS_ADDRESS="unix:path=/nonexistent-verif-no-session-bus")
 def sh(cmd, cwd=wt, check=False):
     p = subprocess.run(cmd, shell=True, cwd=cwd, env=env, stdout=subprocess.PIPE, stderr=subprocess.STDOUT, text=True)
     if check and p.returncode != 0:
